@@ -326,6 +326,35 @@ def main():
         except Exception as ex:
             pred(cl, "resumed geometric::RRTConnect: no observation (%s) %s" % (ex, a[:80]))
     c.cov.update({"rrtconnect_resumed_scripts": len(clines), "rrtconnect_resumed_reports": dict(rcn_stats)})
+    # ---- (d2) geometric::RRTstar resumed: several solve() calls on one planner (tree, goal motions and best cost persist, the approximate
+    #      bookkeeping restarts) against RrtStarCalls.star_solves on primitive floats: the final tree with every cost and every call's report
+    import rrtstar_scripts as rss
+    sl3, st3 = rss.gen_calls(rng2, 80 if quick else 1500)
+    rcs3, ocs3, ecs3, scs3 = vf.sh([rdrv], input="\n".join(sl3) + "\n", timeout=900); c.step("correspond:impl-rrtstar-resume", rdrv, scs3, rcs3 == 0)
+    il3 = [l for l in ocs3.split("\n") if l.startswith("rrtsn")]; ml3 = []; tm3 = 0.0
+    for a0 in range(0, len(st3), 100):
+        src = "From Coq Require Import Floats List. From OmplV Require Import EstFloat RrtStarFloat. Import ListNotations.\nLocal Open Scope float_scope.\nEval vm_compute in [\n" + ";\n".join(st3[a0:a0 + 100]) + "].\n"
+        pth = os.path.join(c.outdir, "star_calls_%d.v" % a0); open(pth, "w").write(src)
+        rcm, ocm, ecm, scm = vf.sh("timeout 1500 coqc -Q %s OmplV %s" % (vf.COQ, pth), timeout=1600); tm3 += scm
+        if rcm != 0: c.broken.append("model evaluation (coqc star_calls) failed: " + (ecm or ocm)[-300:]); break
+        txt = ocm[ocm.index("["):ocm.rindex("]") + 1].replace("%float", "").replace(";", ",")
+        ml3 += eval(txt, {"__builtins__": {}, "infinity": float("inf"), "neg_infinity": float("-inf"), "nan": float("nan")})
+    c.step("correspond:model-rrtstar-resume", "coqc star_calls_*.v (Eval vm_compute, RrtStarFloat.star_float_calls)", tm3, not c.broken)
+    rs_stats = collections.Counter()
+    for k, sl in enumerate(sl3):
+        a = il3[k].strip() if k < len(il3) else "<no output>"
+        try:
+            jd = rss.judge_calls(sl, a); rs_stats["calls"] += len(jd["ireps"]); rs_stats["reports"] += sum(1 for r in jd["ireps"] if r); rs_stats["nodes"] += len(jd["nodes"])
+            if k < len(ml3):
+                m = ml3[k]; same = [rss.fb(float(x)) for x in m[0]] == jd["itree"] and [[rss.fb(float(x)) for x in r] for r in m[1:]] == jd["ireps"]
+                if not same and jd["dup"]: rs_stats["ties_no_verdict"] += 1
+                elif not same:
+                    ndiff += 1
+                    if first_diff is None: first_diff = ("RRTstar resumed", sl, a[:300], repr(m)[:300])
+            if jd["path_bad"]: pred(sl, "resumed geometric::RRTstar: " + jd["path_bad"])
+        except Exception as ex:
+            pred(sl, "resumed geometric::RRTstar: no observation (%s) %s" % (ex, a[:80]))
+    c.cov.update({"rrtstar_resumed_scripts": len(sl3), "rrtstar_resumed": dict(rs_stats)})
     # ---- (e) LazyLBTRRT's LPAstarOnGraph against LpaModel (repaired queue-removal rule): scripted edge insertions / removals / shortest-path
     #      computations on LazyLBTRRT's graph type; after every operation the whole state (g, rhs, parent, flag of every node, queue order) and
     #      every answer must agree; on the implementation no flag may disagree with the queue, no inconsistent node may be unqueued, no call hang
